@@ -685,6 +685,18 @@ fn layer2(conn: &Connection, run: &mut Run, d: Dialect) {
         ("x != null", "notnull", Box::new(|a, _| Some(a.is_some() as i64 as f64))),
         ("null == x", "nullis", Box::new(|a, _| Some(a.is_none() as i64 as f64))),
         ("(x | in 1..2)", "in", Box::new(|a, _| a.map(|a| (a >= 1.0 && a <= 2.0) as i64 as f64))),
+        // the other shapes of a literal range: the documented meaning is `x >= lo && x <= hi`, whatever the bounds —
+        // descending (always false for a number, *null for null*), single-point, half-open, negative, and its
+        // negation / coalescing, where a wrongly folded constant would surface
+        ("(x | in 2..1)", "in-descending", Box::new(|a, _| a.map(|_| 0.0))),
+        ("!(x | in 2..1)", "not-in-descending", Box::new(|a, _| a.map(|_| 1.0))),
+        ("(x | in 2..1) ?? true", "in-descending-coalesce", Box::new(|a, _| Some(if a.is_some() { 0.0 } else { 1.0 }))),
+        ("(x | in (-1)..(-2))", "in-descending-negative", Box::new(|a, _| a.map(|_| 0.0))),
+        ("(x | in 1..1)", "in-single-point", Box::new(|a, _| a.map(|a| (a == 1.0) as i64 as f64))),
+        ("(x | in 1..)", "in-open-end", Box::new(|a, _| a.map(|a| (a >= 1.0) as i64 as f64))),
+        ("(x | in ..1)", "in-open-start", Box::new(|a, _| a.map(|a| (a <= 1.0) as i64 as f64))),
+        ("(x | in (-2)..0.5)", "in-mixed-bounds", Box::new(|a, _| a.map(|a| (a >= -2.0 && a <= 0.5) as i64 as f64))),
+        ("(x | in y..2)", "in-column-bound", Box::new(|a, b| match (a, b) { (Some(a), Some(b)) => Some((a >= b && a <= 2.0) as i64 as f64), (Some(a), None) if a > 2.0 => Some(0.0), _ => None })),
         ("case [x > 0 => x, y > 0 => y]", "case", Box::new(|a, b| if a.map(|a| a > 0.0).unwrap_or(false) { a } else if b.map(|b| b > 0.0).unwrap_or(false) { b } else { None })),
         ("case [x > 0 => 1, true => 2]", "case-default", Box::new(|a, _| if a.map(|a| a > 0.0).unwrap_or(false) { Some(1.0) } else { Some(2.0) })),
         ("x ?? y ?? 7", "coalesce-chain", Box::new(|a, b| a.or(b).or(Some(7.0)))),
